@@ -9,9 +9,14 @@ import Driver.BlockOps
 import Driver.ThreadsOps
 import Driver.TocOps
 import Driver.SerializerOps
+import Driver.ExtractOps
+import Driver.TriggerOps
+import Driver.InlineOps
+import Driver.PyOps
+import Driver.CodeOps
 
 namespace Driver
 
-def handlers : List Handler := [registryHandler, dispatchHandler, normalizeHandler, tablesHandler, blockHandler, threadsHandler, tocHandler, serializerHandler]
+def handlers : List Handler := [registryHandler, dispatchHandler, normalizeHandler, tablesHandler, blockHandler, threadsHandler, tocHandler, serializerHandler, codeHandler, pyHandler, inlineHandler, triggerHandler, extractEvHandler]
 
 end Driver
